@@ -8,8 +8,10 @@ package c10
 import (
 	"bytes"
 	"context"
+	"crypto/tls"
 	"encoding/binary"
 	"fmt"
+	"net"
 	"net/netip"
 	"testing"
 
@@ -377,12 +379,69 @@ func cookies(r *mc.Run) {
 	}
 }
 
+// direction: session keys come from the project's own ExportKeys on both ends of a
+// real TLS 1.3 session; a packet sealed for one direction must not pass in the other.
+func direction(r *mc.Run) {
+	if !r.Mine() {
+		return
+	}
+	x := &mc.X{}
+	world.Run(r.T, x, func(w *world.World) {
+		var cd, sd ntske.Data
+		c, s := w.Net.NewStreamPair(&net.TCPAddr{IP: net.IPv4(10, 0, 0, 2), Port: 50000}, &net.TCPAddr{IP: net.IPv4(10, 0, 0, 1), Port: 4460})
+		w.Go("tls-server", func() {
+			tc := tls.Server(s, kit.ServerTLS("ntske/1"))
+			if tc.Handshake() == nil {
+				ntske.ExportKeys(tc.ConnectionState(), &sd)
+			}
+		})
+		w.Go("tls-client", func() {
+			cfg := kit.ClientTLS()
+			cfg.NextProtos = []string{"ntske/1"}
+			tc := tls.Client(c, &cfg)
+			if tc.Handshake() == nil {
+				ntske.ExportKeys(tc.ConnectionState(), &cd)
+			}
+		})
+		w.Settle()
+		r.Evals += 4
+		r.Distinct += 4
+		if len(cd.C2sKey) != 32 || !bytes.Equal(cd.C2sKey, sd.C2sKey) || !bytes.Equal(cd.S2cKey, sd.S2cKey) {
+			r.Fail("direction", "exported-keys-disagree", "client and server ExportKeys differ", in{Kind: "direction"})
+			return
+		}
+		if bytes.Equal(cd.C2sKey, cd.S2cKey) {
+			r.Fail("direction", "directions-share-a-key", "ExportKeys returned the same key for client-to-server and server-to-client", in{Kind: "direction"})
+		}
+		// a request reflected to its sender must not pass as the response
+		hdr := kit.ClientHeader(w.Clock.Peek())
+		d := ntske.Data{C2sKey: cd.C2sKey, S2cKey: cd.S2cKey, Cookie: [][]byte{bytes.Repeat([]byte{1}, 124)}}
+		req, id := nts.NewRequestPacket(d)
+		buf := bytes.Clone(hdr)
+		nts.EncodePacket(&buf, &req)
+		var pkt nts.Packet
+		var f ntske.Fetcher
+		if nts.DecodePacket(&pkt, buf) == nil && nts.ProcessResponse(buf, cd.S2cKey, &f, &pkt, id) == nil {
+			r.Fail("direction", "reflected-request-accepted-as-response", "the client's own request, sealed for client-to-server, verifies under the server-to-client key of the same session", in{Kind: "direction"})
+		}
+		// a response presented as a request must not pass at the server
+		resp := nts.NewResponsePacket([][]byte{bytes.Repeat([]byte{2}, 124)}, sd.S2cKey, id)
+		rb := bytes.Clone(hdr)
+		nts.EncodePacket(&rb, &resp)
+		var rp nts.Packet
+		if nts.DecodePacket(&rp, rb) == nil && nts.ProcessRequest(rb, sd.C2sKey, &rp) == nil {
+			r.Fail("direction", "response-accepted-as-request", "a packet sealed for server-to-client verifies under the client-to-server key", in{Kind: "direction"})
+		}
+	})
+}
+
 func TestCheck(t *testing.T) {
 	mc.Main(t, "C10", func(r *mc.Run) {
 		_ = context.Background
 		requests(r)
 		responses(r)
 		cookies(r)
+		direction(r)
 		if r.Replaying() {
 			for _, v := range r.Rep.Violations {
 				fmt.Printf("REPLAY-VERDICT: FAIL signature=%q\n%s\n", v.Signature, v.Message)
@@ -395,6 +454,6 @@ func TestCheck(t *testing.T) {
 		}
 		r.Sample(in{Kind: "request", Level: 5, Byte: 100, Bit: 3})
 		r.Sample(in{Kind: "response-field", Level: 2, Byte: 86, Val: 0xffff})
-		r.Extra["rule"] = "requests of the project's encoder at pool levels 2..8 through the real IP listener, responses with 1..7 cookies through DecodePacket/ProcessResponse, three sealed cookies through Decode/Decrypt: every single-bit flip, every extension type/length and nonce/ciphertext length field over 8+3 values, every truncation, wrong key / direction / session, wrong and shortened unique identifier, unauthenticated fields (unique identifier, cookie, placeholder, unknown, second authenticator) appended after the authenticator; distinct = distinct mutated packets"
+		r.Extra["rule"] = "requests of the project's encoder at pool levels 2..8 through the real IP listener, responses with 1..7 cookies through DecodePacket/ProcessResponse, three sealed cookies through Decode/Decrypt: every single-bit flip, every extension type/length and nonce/ciphertext length field over 8+3 values, every truncation, wrong key / direction / session, wrong and shortened unique identifier, session keys from the project's ExportKeys on both ends of a real TLS session with packets presented in the opposite direction, unauthenticated fields (unique identifier, cookie, placeholder, unknown, second authenticator) appended after the authenticator; distinct = distinct mutated packets"
 	})
 }
